@@ -90,10 +90,9 @@ FormulaOK(e, r) ==
       [] e = "biloc"  -> BilocFormulaOK(o, a)
          \* (one value with an explicit `initial`: the decorator answers 0 before the formula is reached; not compared)
       [] e = "bivar"  -> (r.hasinit /\ Len(a) = 1) \/ BivarFormulaOK(o, a, r.hasinit, InitFx(r))
-         \* mse is not one of the property's estimators; compared where its meaning is undisputed: `initial` given and
-         \* n >= 2 (initial=None: docstring "from zero" vs code "from the mean"; one value: the decorator answers 0
-         \* whatever `initial` is -- both are candidate 12 of C17)
-      [] e = "mse"    -> (r.hasinit /\ Len(a) >= 2) => FxClose(o, MseAbout(a, InitFx(r)), Tol9)
+         \* mse is not one of the property's estimators; it is held to its docstring: "MSE is calculated from zero.
+         \* Another reference point ... can be specified with `initial`" (the code as repaired by d7371cf, found by C17)
+      [] e = "mse"    -> FxClose(o, IF r.hasinit THEN MseAbout(a, InitFx(r)) ELSE MseFromZero(a), Tol9)
 
 (* ------------------------------------------------------------------------------------------ P-layer: smoothers *)
 N(r) == Len(r.v)
@@ -300,14 +299,14 @@ Body(e, a, w, flag, hasinit, init) ==
       [] e = "bivar"   -> BivarCode(a, hasinit, init)
       [] e = "wmad"    -> WMadCode(a, w, flag, WMedianCode)
       [] e = "wstd"    -> WeightedStd(a, w)
-      [] e = "mse"     -> IF hasinit THEN MseAbout(a, init) ELSE MseFromMean(a)    \* `initial = a.mean()`
+      [] e = "mse"     -> IF hasinit /\ ~ZIsZero(init) THEN MseAbout(a, init) ELSE MseFromZero(a)    \* `if initial: a = a - initial`
       [] e = "mode"    -> a[1]              \* not modelled (KDE); constant data returns the constant (after the fix)
 (* the decorators on_array(default) / on_weighted_array(default): nothing left -> NaN; one value -> that value   *)
-(* (location estimators, default None) or 0 (scale estimators and mse, default 0 -- for weighted_mad and         *)
-(* weighted_std after the fix) *)
+(* (location estimators, default None) or 0 (scale estimators, default 0 -- for weighted_mad and weighted_std    *)
+(* after the fix).  mean_squared_error strips NaN itself and has no one-value shortcut (after d7371cf).          *)
 Decorated(e, a, w, flag, hasinit, init) ==
     IF Len(a) = 0 THEN NaNResult
-    ELSE IF Len(a) = 1 THEN Val(IF e \in LocEst THEN a[1] ELSE ZZero)
+    ELSE IF Len(a) = 1 /\ e # "mse" THEN Val(IF e \in LocEst THEN a[1] ELSE ZZero)
     ELSE Val(Body(e, a, w, flag, hasinit, init))
 ShiftSeq(a, c) == [i \in 1..Len(a) |-> ZAdd(a[i], c)]
 ScaleSeq(a, fn, fd) == [i \in 1..Len(a) |-> ZDivT(ZMulInt(a[i], fn), ZFromInt(fd))]
@@ -352,7 +351,6 @@ Drift(r) ==
     /\ r.kind = "single" /\ r.err = ""
     /\ CASE e = "wmedian" -> ~HasZeroWeight(r) /\ ~FxEq(Out(r), Decorated(e, Xs(r), Ws(r), FALSE, FALSE, ZZero).val)
          [] e = "wmad"    -> ~HasZeroWeight(r) /\ ~FxClose(Out(r), Decorated(e, Xs(r), Ws(r), r.flag, FALSE, ZZero).val, Tol9)
-         [] e = "mse"     -> ~r.hasinit /\ ~FxClose(Out(r), Decorated(e, Xs(r), <<>>, FALSE, FALSE, ZZero).val, Tol9)
          [] e = "mode"    -> ~(\E i \in 1..Len(Xs(r)) : FxEq(Out(r), Xs(r)[i]))      \* "a data point by construction"
          [] OTHER -> FALSE
 
